@@ -27,6 +27,14 @@ def is_nbr_slice(t: Term, NL: Term, i: Term) -> bool:
         t[2][1][1][0] == "slice" and t[2][1][1][1] == C(1) and t[2][1][1][2] in his and t[2][1][1][3] == NONE
 
 
+def nbr_slice_tri(t: Term, NL: Term, i: Term) -> Optional[bool]:
+    """tri-state form of is_nbr_slice: False only for a definitely different index (other bounds / row / table)."""
+    if t is None:
+        return None
+    cn = nbr_count(NL, i)
+    return eqv(t, ("sub", NL, ("tuple", (i, ("slice", C(1), ("bin", "+", cn, C(1)), NONE)))))
+
+
 def row_bcast(t: Term) -> Term:
     """x[np.newaxis, :] -> x"""
     if t[0] == "sub" and t[2] == ("tuple", (NEWAX, FULL)):
@@ -82,7 +90,7 @@ def polar_angle(t: Term, B: Term) -> Optional[str]:
     if k is None or n is None:
         return None
     if n != B:
-        return "the norm is taken of another vector than the one whose component is divided"
+        return None
     return "ok" if k == 2 else f"polar angle from component {k} (must be z = component 2)"
 
 
